@@ -201,6 +201,15 @@ func genCase(r *vh.Rand, paused bool) string {
 	}
 	// gun options under which Shoot reads the request body / the answer, or follows redirects (opts.go)
 	opts := genOptTokens(r, true)
+	if ssl && ka && r.Chance(1, 4) {
+		// the http2 gun (TLS only) against a target speaking h2.  Only with keep-alives on: the property's "one connection per
+		// request when keep-alives are disabled" is about HTTP/1; golang.org/x/net/http2 under DisableKeepAlives was seen to
+		// open a few connections more than there are requests when instances share a client (its own pool logic)
+		if opts != "" {
+			opts += "."
+		}
+		opts += "2"
+	}
 	status, size := r.PickInt([]int{200, 200, 200, 204, 301, 404, 500}), r.PickInt([]int{0, 2, 2, 1000, 70000, 300000, 1200000})
 	if status == 301 && size > 2048 && strings.Contains("."+opts+".", ".r.") {
 		// net/http's redirect-following client reads at most 2 KB of a redirect answer and closes the connection otherwise
@@ -232,7 +241,21 @@ func genCase(r *vh.Rand, paused bool) string {
 	if r.Chance(1, 4) {
 		pf += "p"
 	}
-	line := fmt.Sprintf("wire %s %s %s %d:%s %s %s %s %d %s %d %s %d", format, vh.B(ssl), kaf, inst, sc, tgt, vh.B(r.Chance(1, 3)), resp, pools, vh.B(late), pause, pf, len(cfg))
+	// file syntax variants: how header lines are written, blank lines around the items, no newline at the end
+	plf := vh.B(r.Chance(1, 3))
+	if r.Chance(1, 2) {
+		syn := r.Pick([]string{"", "s", "S"})
+		if r.Chance(1, 2) && format != "jsonarr" {
+			syn += "b"
+		}
+		if r.Chance(1, 3) {
+			syn += "n"
+		}
+		if syn != "" {
+			plf += ":" + syn
+		}
+	}
+	line := fmt.Sprintf("wire %s %s %s %d:%s %s %s %s %d %s %d %s %d", format, vh.B(ssl), kaf, inst, sc, tgt, plf, resp, pools, vh.B(late), pause, pf, len(cfg))
 	if len(cfg) > 0 {
 		line += " " + strings.Join(cfg, " ")
 	}
